@@ -12,13 +12,25 @@ import (
 	"verif/engine/chainsim"
 )
 
+// printRep prints what the monitors report (dev aid).
+type printRep struct{ counts map[string]int64 }
+
+func (p *printRep) Violation(sig, what string, w any) { fmt.Printf("VIOLATION %s: %s\n   %v\n", sig, what, w) }
+func (p *printRep) Count(name string, n int64)         { p.counts[name] += n }
+func (p *printRep) Distinct(set, key string)           {}
+func (p *printRep) Nontrivial(key string)              {}
+func (p *printRep) Sample(v any)                       {}
+func (p *printRep) Inconclusive(msg string)            { fmt.Println("INCONCLUSIVE", msg) }
+
 func main() {
 	seed := flag.Uint64("seed", 1, "")
 	blocks := flag.Int("blocks", 40, "")
 	profile := flag.String("profile", "default", "")
 	paths := flag.Bool("paths", true, "")
 	verbose := flag.Bool("v", false, "")
+	rtMode := flag.String("runtime", "", "runtime mode: on|off (default: per scenario PRNG)")
 	flag.Parse()
+	chainsim.RuntimeMode = *rtMode
 	if *verbose {
 		_ = logging.Initialize(os.Stderr, logging.FmtLogfmt, logging.LevelDebug, nil)
 	}
@@ -33,7 +45,11 @@ func main() {
 		}
 	}
 	t0 := time.Now()
-	h, err := chainsim.NewHistory(cfg)
+	rep := &printRep{counts: map[string]int64{}}
+	cm := &chainsim.CommitteeMonitor{Rep: rep}
+	rm := &chainsim.RoundMonitor{Rep: rep}
+	em := &chainsim.ElectionMonitor{Rep: rep}
+	h, err := chainsim.NewHistory(cfg, em, cm, rm)
 	if err != nil {
 		fmt.Println("ERR", err)
 		os.Exit(2)
@@ -60,6 +76,19 @@ func main() {
 	}
 	for k, v := range h.Gen.FailLogs {
 		fmt.Printf("  FAIL %3d %s\n", v, k)
+	}
+	if h.Sc.Runtime != nil {
+		cm.Report(rep)
+		rm.Report(rep)
+		var cs []string
+		for k := range rep.counts {
+			cs = append(cs, k)
+		}
+		sort.Strings(cs)
+		for _, k := range cs {
+			fmt.Printf("  RT %-55s %d\n", k, rep.counts[k])
+		}
+		fmt.Printf("  RT plans %v\n", h.Gen.RuntimePlans())
 	}
 	h.Close()
 	h.CloseBuilder()
